@@ -99,3 +99,12 @@ def cases(tier, seed, ctx=None):
     for size in ((9 * 1024 * 1024 + 1,) if tier == "quick" else (4 * 1024 * 1024, 8 * 1024 * 1024 + 1, 12 * 1024 * 1024)):
         rq = b"POST /slot HTTP/1.1\r\nContent-Length: %d\r\n\r\n" % size + b"z" * size
         yield ("life", [2, [[rq, len(rq), 2]], 0, 1], "whole-body-of-several-MiB")
+    # registered names with characters beyond Latin-1 (Cyrillic, CJK) that differ only there, and requests for each of them and for what
+    # a lossy conversion would turn them into ('?'): each name has its own slot, the others are not registered
+    U1, U2, U3 = "\u0435".encode(), "\u4e2d".encode(), "caf\u0435".encode()
+    for regs in ([[U1, 0, 1, 0, 1], [U2, 0, 2, 0, 2]], [[U3, 0, 3, 1, 0], ["caf\u4e2d".encode(), 0, 4, 1, 1]], [[U1, 0, 1, 0, 0]]):
+        for name in (U1, U2, U3, "caf\u4e2d".encode(), b"?", b"caf?", b"%3F"):
+            raw = b"/" + b"".join(b"%%%02X" % c for c in name) if name not in (b"%3F",) else b"/%3F"
+            head = b"POST " + raw + b" HTTP/1.1\r\nContent-Length: 2\r\n\r\n"
+            nm = name if name != b"%3F" else b"?"
+            yield ("slot", [regs, [G.Construct, G.Feed(head + b"hi"), G.Turn], [ver, []], [15, nm, 2, len(head)]], "names-beyond-latin1")
